@@ -303,7 +303,11 @@ func (p *service) processSubscribe(msg *message.SubscribeMessage) error {
 	for i, t := range topics {
 		rqos, err := p.topicsMgr.Subscribe(t, qos[i], &p.onpub)
 		if err != nil {
-			return err
+			// The filter (or its QoS) is rejected: report the failure in the
+			// SUBACK and go on with the remaining filters (MQTT 3.1.1 section 3.9.3).
+			log.Warningf("(%s) Subscribing topic %q failed: %v", p.cid(), string(t), err)
+			retcodes = append(retcodes, message.QosFailure)
+			continue
 		}
 		p.sess.AddTopic(string(t), qos[i])
 
